@@ -157,3 +157,15 @@ Theorem toml_refusal_writes_nothing s p n ds :
   used s = false ->
   run_docs Toml s (DocRefused p :: ds) n = ({| sink := sink s; used := true |}, Some (VErrDoc n)).
 Proof. intros H. cbn [run_docs]. rewrite H. reflexivity. Qed.
+
+(* run_docs reports a failure verdict or none *)
+Lemma run_docs_not_vok to ds : forall st i, snd (run_docs to st ds i) <> Some VOk.
+Proof.
+  induction ds as [|d ds IH]; intros st i; cbn [run_docs]; [discriminate|].
+  assert (G : snd (match emit to st d with
+                   | (st', true) => run_docs to st' ds (S i)
+                   | (st', false) => (st', Some (VErrDoc i)) end) <> Some VOk).
+  { destruct (emit to st d) as [st' [|]]; [apply IH|discriminate]. }
+  destruct to; try exact G. destruct (used st); [discriminate|exact G].
+Qed.
+
